@@ -43,15 +43,15 @@ class C15(Prop):
         return st.fixed_dictionaries(
             {
                 "end": st.sampled_from(ENDS),
-                "d1": st.sampled_from([0, 1, 2]),
-                "d2": st.sampled_from([0, 1, 3]),
+                "d1": st.sampled_from([0, 0, 1, 2]),
+                "d2": st.sampled_from([0, 0, 1, 3]),
                 "sibling": st.sampled_from([2, 4]),
                 "cancel_at": st.sampled_from([0, 0.5, 1, 1.5, 2.5, 4.5]),
                 "timeout": st.sampled_from([0.5, 1.5, 2.5]),
                 "again": st.sampled_from([None, None, "ok", "fail"]),
                 "store": st.sampled_from(["memory", "memory", "sqlite"]),
                 "fail_status": plan,
-                "fail_update": plan,
+                "fail_update": st.one_of(plan, plan, st.just([1]), st.just([1, 1])),  # incl. "the very first record write fails"
                 "fail_event": plan,
                 "ties": st.lists(st.integers(0, 7), max_size=4),
                 # an extra external event (one no step accepts) sent through the service at a generated instant, typically the very
@@ -59,6 +59,8 @@ class C15(Prop):
                 "extra": st.sampled_from([None, None, ["end", 0], ["end", 0], ["end", -0.5], ["at", 0], ["at", 1], ["at", 2.5]]),
                 # a store with real I/O suspends inside its calls: generated numbers of event-loop yields before each store call
                 "yields": st.sampled_from([[], [], [1], [0, 2], [2, 0, 1], [1, 3], [3, 1, 0, 2], [5, 0]]),
+                # the pause before a failed store write is retried: none (fast), or half a virtual second (a run can end meanwhile)
+                "backoff": st.sampled_from([0.0, 0.5]),
             }
         )
 
@@ -141,7 +143,7 @@ class C15(Prop):
                 ends = [case["end"]] + ([case["again"]] if case["again"] else [])
                 for n, end in enumerate(ends):
                     log["n"] = n
-                    life = await srv.start_life(proxy, self._factory(case, end, log), backoff=(0.0, 0.0))
+                    life = await srv.start_life(proxy, self._factory(case, end, log), backoff=(case.get("backoff", 0.0), case.get("backoff", 0.0)))
                     info = {"end": end, "start_error": None}
                     obs["runs"].append(info)
                     try:
@@ -255,6 +257,8 @@ class C15(Prop):
             r.classes.append("injected_write_failure")
         if case["again"]:
             r.classes.append("second_run_same_handler")
+        if case.get("backoff") and inj:
+            r.classes.append("write_retried_after_a_pause")
         if any("extra_sent_at" in i for i in obs["runs"]):
             r.classes.append("extra_event_accepted")
             if any("extra_sent_at" in i and i.get("ended_at") is not None and abs(i["extra_sent_at"] - i["ended_at"]) < 1e-6 for i in obs["runs"]):
